@@ -32,6 +32,9 @@ pub struct Act {
     pub flush: i32,
 }
 
+/// pseudo flush value: the schedule element is a mz_deflateReset call
+pub const RESET: i32 = 1000;
+
 fn acts() -> Vec<Act> {
     let mut v = vec![];
     for flush in 0..=4 {
@@ -56,6 +59,22 @@ fn deflate_diff(input: &[u8], level: i32, wbits: i32, strategy: i32, sched: &[Ac
         let mut ip = 0usize;
         let mut n = 0;
         for (i, a) in sched.iter().enumerate() {
+            if a.flush == RESET {
+                // mz_deflateReset <-> CompressorOxide::reset(): the recycled stream must go on behaving
+                // like the recycled Rust object (whatever was or was not fed to it before)
+                let rc = c::mz_deflateReset(&mut zs);
+                n += 1;
+                if rc != 0 {
+                    c::mz_deflateEnd(&mut zs);
+                    return Err(format!("call {}: mz_deflateReset returned {}", i, rc));
+                }
+                if zs.total_in != 0 || zs.total_out != 0 {
+                    c::mz_deflateEnd(&mut zs);
+                    return Err(format!("call {}: mz_deflateReset left total_in {} total_out {}", i, zs.total_in, zs.total_out));
+                }
+                rs.reset();
+                continue;
+            }
             let k = if a.ai == u32::MAX { input.len() - ip } else { (a.ai as usize).min(input.len() - ip) };
             let o = capi::stream_call(&mut zs, false, input, ip, k, a.ao as usize, a.flush, place).map_err(|e| format!("call {}: accounting: {}", i, e))?;
             let mut rbuf = vec![0u8; a.ao as usize];
@@ -274,6 +293,170 @@ fn pairwise(input: &[u8], level: i32, zlib: bool, place: Place) -> Result<u64, S
         }
     }
     Ok(n)
+}
+
+
+/// Collector for the put-buffer callbacks: appends to a Vec, fails from the `fail_at`-th call on.
+struct Sink {
+    data: Vec<u8>,
+    calls: usize,
+    fail_at: usize,
+}
+
+unsafe extern "C" fn sink_put(buf: *const c_void, len: c_int, user: *mut c_void) -> i32 {
+    let s = &mut *(user as *mut Sink);
+    s.calls += 1;
+    if s.calls > s.fail_at || len < 0 {
+        return 0;
+    }
+    s.data.extend_from_slice(std::slice::from_raw_parts(buf as *const u8, len as usize));
+    1
+}
+
+/// The callback-driven C functions against compress_to_output: tdefl_init(put_buf) +
+/// tdefl_compress_buffer in chunks with every flush value, tdefl_get_prev_return_status,
+/// tdefl_get_adler32, a callback that starts failing at its k-th call, tdefl_compress with a
+/// callback *and* an output buffer (must be refused), tdefl_compress_mem_to_output, mz_compress,
+/// tdefl_create_comp_flags_from_zip_params.
+fn callback_family(input: &[u8], level: i32, zlib: bool, place: Place) -> Result<u64, String> {
+    use miniz_oxide::deflate::core::compress_to_output;
+    let mut n = 0u64;
+    let wb = if zlib { 15 } else { -15 };
+    let flags = create_comp_flags_from_zip_params(level, wb, 0);
+    unsafe {
+        for chunk in [usize::MAX, 1000, 37] {
+            if chunk == 37 && input.len() > 3000 {
+                continue;
+            }
+            for mid in [0u8, 2, 3] {
+                for fail_at in [usize::MAX, 0, 1, 2] {
+                    let mut sink = Sink { data: vec![], calls: 0, fail_at };
+                    let d = c::tdefl_allocate();
+                    if c::tdefl_init(d.as_mut(), Some(sink_put), &mut sink as *mut Sink as *mut c_void, flags as c_int) as i32 != 0 {
+                        c::tdefl_deallocate(d);
+                        return Err("tdefl_init with a callback failed".into());
+                    }
+                    let mut r = CompressorOxide::new(flags);
+                    let mut rdata: Vec<u8> = vec![];
+                    let mut rcalls = 0usize;
+                    let mut ip = 0;
+                    loop {
+                        let k = chunk.min(input.len() - ip);
+                        let last = ip + k == input.len();
+                        let (cfl, rfl) = if last {
+                            (c::tdefl_flush::TDEFL_FINISH, TDEFLFlush::Finish)
+                        } else {
+                            match mid {
+                                2 => (c::tdefl_flush::TDEFL_SYNC_FLUSH, TDEFLFlush::Sync),
+                                3 => (c::tdefl_flush::TDEFL_FULL_FLUSH, TDEFLFlush::Full),
+                                _ => (c::tdefl_flush::TDEFL_NO_FLUSH, TDEFLFlush::None),
+                            }
+                        };
+                        let (inp, _) = capi::pooled(k, place, 9);
+                        std::ptr::copy_nonoverlapping(input.as_ptr().add(ip), inp, k);
+                        let st = c::tdefl_compress_buffer(d.as_mut(), inp as *const c_void, k, cfl) as i32;
+                        let (rst, rin) = compress_to_output(&mut r, &input[ip..ip + k], rfl, |o: &[u8]| {
+                            rcalls += 1;
+                            if rcalls > fail_at {
+                                return false;
+                            }
+                            rdata.extend_from_slice(o);
+                            true
+                        });
+                        n += 1;
+                        let prev = c::tdefl_get_prev_return_status(d.as_mut()) as i32;
+                        if st != rst as i32 || sink.data != rdata || sink.calls != rcalls {
+                            c::tdefl_deallocate(d);
+                            return Err(format!("tdefl_compress_buffer (callback) -> {} with {} bytes in {} callback calls, compress_to_output -> {} with {} bytes in {} calls (chunk {}, flush {}, callback fails at call {})", st, sink.data.len(), sink.calls, rst as i32, rdata.len(), rcalls, chunk as isize, mid, fail_at as isize));
+                        }
+                        if prev != r.prev_return_status() as i32 {
+                            c::tdefl_deallocate(d);
+                            return Err(format!("tdefl_get_prev_return_status {} != CompressorOxide::prev_return_status {}", prev, r.prev_return_status() as i32));
+                        }
+                        if c::tdefl_get_adler32(d.as_mut()) != r.adler32() {
+                            c::tdefl_deallocate(d);
+                            return Err("tdefl_get_adler32 differs from CompressorOxide::adler32 (callback mode)".into());
+                        }
+                        ip += rin;
+                        if st != 0 || rin == 0 && k != 0 {
+                            break;
+                        }
+                        if last {
+                            break;
+                        }
+                    }
+                    if fail_at == usize::MAX {
+                        let back = if zlib { miniz_oxide::inflate::decompress_to_vec_zlib(&sink.data) } else { miniz_oxide::inflate::decompress_to_vec(&sink.data) };
+                        if back.as_deref().ok() != Some(input) {
+                            c::tdefl_deallocate(d);
+                            return Err("callback-collected output does not decode to the input".into());
+                        }
+                        // a callback is installed: passing an output buffer as well must be refused
+                        let mut ob = [0u8; 64];
+                        let (mut a, mut b) = (0usize, ob.len());
+                        let st = c::tdefl_compress(d.as_mut(), std::ptr::null(), Some(&mut a), ob.as_mut_ptr() as *mut c_void, Some(&mut b), c::tdefl_flush::TDEFL_FINISH) as i32;
+                        n += 1;
+                        if st != -2 || a != 0 || b != 0 {
+                            c::tdefl_deallocate(d);
+                            return Err(format!("tdefl_compress with both a callback and an output buffer returned {} (in {}, out {}) instead of TDEFL_STATUS_BAD_PARAM", st, a, b));
+                        }
+                    }
+                    c::tdefl_deallocate(d);
+                }
+            }
+        }
+        // tdefl_compress_mem_to_output
+        let mut rc = CompressorOxide::new(flags);
+        let want = crate::props::c01::compress_all(&mut rc, input)?;
+        for fail_at in [usize::MAX, 0] {
+            let mut sink = Sink { data: vec![], calls: 0, fail_at };
+            let (inp, _) = capi::pooled(input.len(), place, 9);
+            std::ptr::copy_nonoverlapping(input.as_ptr(), inp, input.len());
+            let ok = c::tdefl_compress_mem_to_output(inp as *const c_void, input.len(), Some(sink_put), &mut sink as *mut Sink as *mut c_void, flags as c_int);
+            n += 1;
+            if fail_at == usize::MAX {
+                if ok == 0 || sink.data != want {
+                    return Err(format!("tdefl_compress_mem_to_output returned {} with {} bytes, Rust compress gives {} bytes (or bytes differ)", ok, sink.data.len(), want.len()));
+                }
+            } else if ok != 0 {
+                return Err("tdefl_compress_mem_to_output reported success although the callback refused the data".into());
+            }
+        }
+        if zlib {
+            // mz_compress == mz_compress2 at the default level
+            let cap = capi::compress_bound(input.len());
+            let (inp, _) = capi::pooled(input.len(), place, 2);
+            std::ptr::copy_nonoverlapping(input.as_ptr(), inp, input.len());
+            let (outp, _) = capi::pooled(cap, place, 3);
+            let mut dl: libc::c_ulong = cap as libc::c_ulong;
+            let r1 = c::mz_compress(outp, &mut dl, inp, input.len() as libc::c_ulong);
+            let got = std::slice::from_raw_parts(outp, (dl as usize).min(cap)).to_vec();
+            let (r2, want2) = capi::compress2(input, -1, cap, place);
+            n += 2;
+            if r1 != 0 || r2 != 0 || got != want2 {
+                return Err(format!("mz_compress returned {} with {} bytes, mz_compress2(level -1) returned {} with {} bytes", r1, got.len(), r2, want2.len()));
+            }
+        }
+    }
+    Ok(n)
+}
+
+/// tdefl_create_comp_flags_from_zip_params == create_comp_flags_from_zip_params on every argument triple.
+fn flags_sweep(rep: &Report) -> u64 {
+    let mut n = 0;
+    for level in -3..=12 {
+        for wbits in [-16, -15, -8, -1, 0, 1, 8, 9, 12, 15, 16] {
+            for strat in -1..=5 {
+                n += 1;
+                let a = c::tdefl_create_comp_flags_from_zip_params(level, wbits, strat);
+                let b = create_comp_flags_from_zip_params(level, wbits, strat);
+                if a != b {
+                    rep.violation("C17/pairwise/tdefl_create_comp_flags_from_zip_params", format!("tdefl_create_comp_flags_from_zip_params({}, {}, {}) = {:#x}, Rust function gives {:#x}", level, wbits, strat, a, b), json!({"kind": "flags", "level": level, "wbits": wbits, "strat": strat}));
+                }
+            }
+        }
+    }
+    n
 }
 
 // ---------------------------------------------------------------------------------------
@@ -653,14 +836,30 @@ pub fn run(tier: &str) -> i32 {
         } else {
             vec![]
         };
-        // all schedules of length `depth` starting with action a0
+        // all schedules of length `depth` starting with action a0; for deflate streams additionally
+        // every (a0, Reset, b) and (a0, b, Reset, Finish-all) schedule
         let total = all.len().pow((depth - 1) as u32);
-        for code in 0..total {
+        let extra = if kind == 0 { all.len() * 2 } else { 0 };
+        for code in 0..total + extra {
             let mut sched = vec![all[a0]];
-            let mut x = code;
-            for _ in 1..depth {
-                sched.push(all[x % all.len()]);
-                x /= all.len();
+            if code >= total {
+                let e = code - total;
+                let b = all[e % all.len()];
+                if e < all.len() {
+                    sched.push(Act { ai: 0, ao: 0, flush: RESET });
+                    sched.push(b);
+                    sched.push(Act { ai: u32::MAX, ao: LARGE as u32, flush: 4 });
+                } else {
+                    sched.push(b);
+                    sched.push(Act { ai: 0, ao: 0, flush: RESET });
+                    sched.push(Act { ai: u32::MAX, ao: LARGE as u32, flush: 4 });
+                }
+            } else {
+                let mut x = code;
+                for _ in 1..depth {
+                    sched.push(all[x % all.len()]);
+                    x /= all.len();
+                }
             }
             watchdog::pulse();
             let r = guarded(|| if kind == 0 { deflate_diff(input, level, wb, strat, &sched, place) } else { inflate_diff(&stream, wb, &sched, place) });
@@ -699,7 +898,7 @@ pub fn run(tier: &str) -> i32 {
         watchdog::tick(ix as u64, 1);
         let (i, level, zl, pl) = pitems[ix];
         let place = if pl == 0 { Place::End } else { Place::Start };
-        match guarded(|| pairwise(&pair_inputs[i].data, level, zl, place)) {
+        match guarded(|| pairwise(&pair_inputs[i].data, level, zl, place).and_then(|a| callback_family(&pair_inputs[i].data, level, zl, place).map(|b| a + b))) {
             Ok(Ok(n)) => *acc += n,
             Ok(Err(e)) => rep.violation(
                 &format!("C17/pairwise/{}", e.split(|c: char| c == ':' || c == '(' || c == ' ').next().unwrap_or("")),
@@ -710,7 +909,7 @@ pub fn run(tier: &str) -> i32 {
         }
     });
     let pair_calls: u64 = pres.iter().sum();
-    let sweep = param_sweep(&rep);
+    let sweep = param_sweep(&rep) + flags_sweep(&rep);
     let mis = run_misuse(&rep);
     rep.set("states", json!(scheds + pitems.len() as u64));
     rep.set("transitions", json!(calls + pair_calls + sweep + mis));
